@@ -299,6 +299,31 @@ func sourceForFork(src MapCallSource, fork map[*CallStm]CollectionIndex,
 	return src, nil
 }
 
+// forkedMergeSource returns the given source with the reference which
+// determines its length or keys bound to the given fork indices.  The source
+// is returned unchanged if it does not depend on them.
+func forkedMergeSource(src MapCallSource, fork map[*CallStm]CollectionIndex,
+	lookup *TypeLookup) MapCallSource {
+	switch s := src.(type) {
+	case *BoundReference:
+		if s.Exp == nil {
+			return src
+		}
+		if e, err := s.Exp.BindingPath("", fork, lookup); err == nil {
+			if r, ok := e.(*RefExp); ok && r != s.Exp {
+				return &BoundReference{Exp: r, Type: s.Type}
+			}
+		}
+	case *MapCallSet:
+		if m := forkedMergeSource(s.Master, fork, lookup); m != s.Master {
+			sc := *s
+			sc.Master = m
+			return &sc
+		}
+	}
+	return src
+}
+
 func findMergeForkExpNode(v Exp, call *CallStm) *RefExp {
 	switch v := v.(type) {
 	case *RefExp:
@@ -407,6 +432,16 @@ func (s *MergeExp) BindingPath(bindPath string,
 			sc.Value = v
 			sc.ForkNode = fn
 			s = &sc
+		}
+		if fn == nil && len(fork) > 0 {
+			// Without a fork node, the elements are enumerated at run time
+			// from the value of the source, so the source has to refer to
+			// the same fork of its producer as the rest of this expression.
+			if ms := forkedMergeSource(s.MergeOver, fork, lookup); ms != s.MergeOver {
+				sc := *s
+				sc.MergeOver = ms
+				s = &sc
+			}
 		}
 		return s, s.wrapError(err)
 	}
